@@ -19,6 +19,10 @@ func (r *Run) newTimer(d int64, what string, fire func()) *timer {
 		d = 0
 	}
 	tm := &timer{id: len(r.timers), deadline: r.now + d, fire: fire, what: what}
+	if r.race != nil {
+		tm.vc = r.race.clockOf(r.raceCur()).copyOf()
+		r.race.clockOf(r.raceCur())[r.raceCur()]++
+	}
 	r.timers = append(r.timers, tm)
 	return tm
 }
@@ -75,6 +79,7 @@ func (c *ctxObj) cancel(err value) {
 	}
 	if c.done != nil && !c.done.closed {
 		c.done.closed = true
+		R.raceRelease(c.done)
 		for len(c.done.recvq) > 0 {
 			w := c.done.recvq[0]
 			i := caseIndex(w, c.done, false)
@@ -278,5 +283,6 @@ func spawnThreadNoYield(fn value, args []value, from string) {
 		name = f.Fn.String()
 	}
 	t := R.newThread(name)
+	R.raceSpawn(t.id)
 	R.startThread(t, func() { call(nil, token.NoPos, fn, args) })
 }
